@@ -100,6 +100,10 @@ type Config struct {
 	NodeMinGasPrices string
 	// EvmTracer is the node-local tracer option ("" or "json" ...).
 	EvmTracer string
+	// ExtraAppOpts / ExtraBaseOpts: further node-local configuration (app.toml keys as the server hands them to the app
+	// constructor; baseapp options as server.DefaultBaseappOptions derives them from app.toml).
+	ExtraAppOpts  map[string]interface{}
+	ExtraBaseOpts []func(*baseapp.BaseApp)
 	// EvmGenesisMutator allows tweaking the evm genesis (pre-installed contracts).
 	EvmGenesis func(gs *evmtypes.GenesisState)
 	// CpcWhitelist sets the cpc deployer whitelist at genesis.
@@ -206,10 +210,14 @@ func NewE(cfg Config) (w *World, err error) {
 	if cfg.EvmTracer != "" {
 		opts["evm.tracer"] = cfg.EvmTracer
 	}
+	for k, v := range cfg.ExtraAppOpts {
+		opts[k] = v
+	}
 	baseOpts := []func(*baseapp.BaseApp){baseapp.SetChainID(ChainID)}
 	if cfg.NodeMinGasPrices != "" {
 		baseOpts = append(baseOpts, baseapp.SetMinGasPrices(cfg.NodeMinGasPrices))
 	}
+	baseOpts = append(baseOpts, cfg.ExtraBaseOpts...)
 	w.App = chainapp.NewEvermint(log.NewNopLogger(), sdkdb.NewMemDB(), nil, true, map[int64]bool{}, chainapp.DefaultNodeHome, 0, w.Enc, opts, baseOpts...)
 	w.Keys = w.App.GetKVStoreKey()
 
